@@ -53,8 +53,16 @@ func VH_C14_ReadOnly() {
 	})
 	vhReset()
 	vos.Restore(tree)
-	layout := vh.Choice("layout", 5)
+	layout := vh.Choice("layout", 7)
 	switch layout {
+	case 5:
+		// an upload directory left behind (empty) by an earlier writable server
+		vos.Mkdir(vhRoot+"/a/_uploads", vclock.Last())
+	case 6:
+		// a repository that is a valid layout without any manifest or blob
+		vos.Put(vhRoot+"/e/oci-layout", []byte(`{"imageLayoutVersion":"1.0.0"}`), vclock.Last())
+		vos.Put(vhRoot+"/e/index.json", []byte(`{"schemaVersion":2,"mediaType":"application/vnd.oci.image.index.v1+json","manifests":[]}`), vclock.Last())
+		vos.Mkdir(vhRoot+"/e/blobs/sha256", vclock.Last())
 	case 1:
 		vhLegacyLayout(w)
 	case 2:
@@ -64,7 +72,7 @@ func VH_C14_ReadOnly() {
 	case 4:
 		vos.Delete(vhRoot + "/b/index.json")
 	}
-	vh.Tag("layout", []string{"normal", "legacy-fallback-tags", "corrupt-index", "no-oci-layout", "b-without-index"}[layout])
+	vh.Tag("layout", []string{"normal", "legacy-fallback-tags", "corrupt-index", "no-oci-layout", "b-without-index", "leftover-empty-uploads-dir", "empty-repository"}[layout])
 	var conf config.Config
 	if vh.Bool("memOverDir") {
 		conf = vhConf(config.StoreMem)
@@ -110,7 +118,7 @@ func VH_C14_ReadOnly() {
 	if conf.Storage.StoreType == config.StoreMem && vh.Param("METHODS", 6) > 0 {
 		mutated = w2.mutating
 	}
-	if (layout == 0 || layout == 1) && !mutated {
+	if (layout == 0 || layout == 1 || layout >= 5) && !mutated {
 		g := vhGetBlob(w2.s, "a", w.dLayer)
 		vh.Assert(g.Status() == 200 && vhBytesEq(g.Body, w.layer), "C14.content-not-served")
 		m := vhGetManifest(w2.s, "a", "t1")
@@ -121,6 +129,9 @@ func VH_C14_ReadOnly() {
 	if layout != 4 && !mutated {
 		vh.Assert(gb.Status() == 200, "C14.content-not-served")
 	}
+	// the empty repository is opened by a read as well
+	vhDo(w2.s, "GET", "/v2/e/tags/list", nil, nil, nil)
+	vh.Assert(vos.Mutations() == ops && vos.Snapshot(vhRoot) == before, "C14.directory-modified")
 	_ = w2.s.Close()
 	vh.Assert(vos.Mutations() == ops && vos.Snapshot(vhRoot) == before, "C14.directory-modified-by-close")
 	vh.Cover("C14.readonly-end")
